@@ -114,10 +114,13 @@ fn tree_entries(path: &[u8], tree: &Bound<PyAny>, py: Python) -> PyResult<Vec<Py
     for item in items {
         let (name, mode, sha) = item.extract::<(Vec<u8>, u32, Py<PyAny>)>(py)?;
 
+        // Same as posixpath.join(path, name), which TreeEntry.in_path uses
         let mut new_path = Vec::with_capacity(path.len() + name.len() + 1);
-        if !path.is_empty() {
+        if !name.starts_with(b"/") {
             new_path.extend_from_slice(path);
-            new_path.push(b'/');
+            if !path.is_empty() && !path.ends_with(b"/") {
+                new_path.push(b'/');
+            }
         }
         new_path.extend_from_slice(name.as_slice());
 
